@@ -316,8 +316,12 @@ class Generator:
         if self.items is None:
             self.build_items()
         vis = [it for it in self.items if self._visible(it, unit)]
-        proven = {(it.kind, it.key) for it in vis if it.kind in ('fn', 'const') and not it.assumed}
-        return [it for it in vis if not (it.assumed and (it.kind, it.key) in proven)]
+        # ... emitted in the same FORM: a real `ext_trait` entry (inherent method / free fn `PREFIX__m`) does not give the
+        # trait-form method `<T as Trait>::m` a contract, so it leaves a trait-form `[assumed]` entry of that KEY in place
+        def _form(it):
+            return 'ext_trait' in it.entry.opts
+        proven = {(it.kind, it.key, _form(it)) for it in vis if it.kind in ('fn', 'const') and not it.assumed}
+        return [it for it in vis if not (it.assumed and (it.kind, it.key, _form(it)) in proven)]
 
     def _extract(self, it):
         """-> (sig tokens, body tokens, impl_header, modpath) after rewrites"""
